@@ -69,10 +69,10 @@ def run(ctx):
                       'a NaN value is well-formed input here (filtered later by admission, C12)']
   c01.model(ctx)
   wm = wiresys.WireModules(ctx.scratch)
-  streams = mixed_streams(ctx, ctx.rng, ctx.pick(60, 600))
-  traces, origins = c01.run_streams(ctx, wm, streams, ctx.pick(40, 200), ctx.rng)
+  streams = mixed_streams(ctx, ctx.rng, ctx.pick(60, 300))
+  traces, origins = c01.run_streams(ctx, wm, streams, ctx.pick(40, 120), ctx.rng)
   # byte-level mutants
-  good = c01.good_streams(ctx, ctx.rng, ctx.pick(30, 400))
+  good = c01.good_streams(ctx, ctx.rng, ctx.pick(30, 200))
   for proto, frames in good:
     if proto == 'udp':
       continue
